@@ -202,8 +202,55 @@ def gen_derive(rng, w, t):
     names = w.sorted_names()
     kind = rng.choice(['add', 'sub', 'mul', 'div', 'neg', 'pos', 'abs', 'T', 'H', 'real', 'imag', 'get1', 'get2', 'get2', 'copy',
                        'reshape', 'convert', 'emul', 'addnum', 'rsubnum', 'smul', 'ediv', 'emax', 'emin', 'vstack', 'hstack', 'fromlist',
-                       'raddnum', 'mulnum', 'subnum', 'rem', 'pow', 'efun'])
+                       'raddnum', 'mulnum', 'subnum', 'rem', 'pow', 'efun', 'blocks', 'blocks', 'fromnum', 'recast', 'trans', 'ctrans'])
     nm = w.fresh()
+    if kind == 'blocks':
+        # a list of block columns drawn from the pool (numbers are 1x1 blocks); mostly conforming
+        def block_col(width, height=None):
+            cands = [k for k in names if w.o(k)['M'].n == width]
+            col, h = [], 0
+            for _ in range(rng.randint(1, 3)):
+                if width == 1 and rng.random() < 0.25:
+                    col.append({'k': 'num', 'v': mkval(rng.choice(['i', 'd', 'z']), rng)})
+                    h += 1
+                elif cands:
+                    pick = rng.choice(cands)
+                    if height is not None:
+                        fit = [k for k in cands if w.o(k)['M'].m == height - h]
+                        if fit and rng.random() < 0.8:
+                            pick = rng.choice(fit)
+                    col.append({'k': 'ref', 'name': pick})
+                    h += w.o(pick)['M'].m
+                if height is not None and h >= height:
+                    break
+            if not col:
+                col.append({'k': 'ref', 'name': t})
+                h = m
+            return col, h
+        first, h = block_col(n)
+        if rng.random() < 0.3:
+            first.insert(rng.randrange(len(first) + 1), {'k': 'ref', 'name': t})
+            h += m
+        cols = [first]
+        for _ in range(rng.choice([0, 0, 1, 1, 2])):
+            width = rng.choice([n, 1, 2, w.o(rng.choice(names))['M'].n])
+            c, _h = block_col(width, h)
+            cols.append(c)
+        flat = rng.random() < 0.25 and len(cols) == 1       # matrix([A, B]) instead of matrix([[A, B]])
+        size = None
+        if rng.random() < 0.15:
+            tot = h * sum(1 for _ in cols)
+            size = [rng.randint(0, 6), rng.randint(0, 4)]
+        return ['derive', nm, 'blocks', t, cols, flat, size, rng.choice([None, None, None, 'i', 'd', 'z'])]
+    if kind == 'fromnum':
+        size = rng.choice([None, [rng.randint(0, 3), rng.randint(0, 3)], [rng.randint(1, 3), rng.randint(1, 3)], [-1, 2]])
+        return ['derive', nm, 'fromnum', t, {'k': 'num', 'v': mkval(rng.choice(['i', 'd', 'z']), rng)}, size, rng.choice([None, None, 'i', 'd', 'z'])]
+    if kind == 'recast':
+        tot = m * n
+        shapes = [(a, tot // a) for a in range(1, tot + 1) if tot % a == 0] if tot else [(0, 2), (3, 0), (0, 0)]
+        sh = rng.choice(shapes) if rng.random() < 0.9 else (m + 1, n + 1)
+        tcs = [c for c in 'idz' if MDL.ORDER[c] >= MDL.ORDER[tc]] if tot == 0 else ['i', 'd', 'z']
+        return ['derive', nm, 'recast', t, list(sh), rng.choice(tcs)]
     if kind == 'rem':
         if rng.random() < 0.25:
             cands = [k for k in names if w.o(k)['M'].size == (1, 1)]
@@ -366,6 +413,8 @@ def apply(op, w, stats):
     for a in op:
         if isinstance(a, dict) and a.get('k') == 'ref':
             refs.append(a['name'])
+    if kind == 'derive' and op[2] == 'blocks':
+        refs += [b['name'] for col in op[4] for b in col if b.get('k') == 'ref']
     if any(a not in w.names for a in refs):
         return
     if kind == 'iop':
@@ -524,6 +573,33 @@ def apply(op, w, stats):
                 fr, fm = (lambda: v - X), (lambda: MDL.rsub(M, v))
             else:
                 fr, fm = (lambda: v * X), (lambda: MDL.mul(M, v))
+        elif dk == 'blocks':
+            cols, flat, size, tcx = op[4], op[5], op[6], op[7]
+            pairs = [[operand(w, b) for b in col] for col in cols]
+            rcols = [[pr[0] for pr in col] for col in pairs]
+            mcols = [[pr[1] for pr in col] for col in pairs]
+            arg = rcols[0] if flat else rcols
+            if flat and all(not isinstance(x, matrix) for x in arg):
+                return        # a flat list of numbers is a column vector (fromlist), not a block column
+            kw = {}
+            if tcx is not None:
+                kw['tc'] = tcx
+            if size is not None:
+                kw['size'] = tuple(size)
+            fr, fm = (lambda: matrix(arg, **kw)), (lambda: MDL.blocks(mcols, tcx, tuple(size) if size is not None else None))
+        elif dk == 'fromnum':
+            v = lit(op[4]['v'])
+            size, tcx = op[5], op[6]
+            args = [v] + ([tuple(size)] if size is not None else []) + ([tcx] if tcx is not None and size is not None else [])
+            kw = {'tc': tcx} if tcx is not None and size is None else {}
+            fr, fm = (lambda: matrix(*args, **kw)), (lambda: MDL.fromnum(v, tuple(size) if size is not None else None, tcx))
+        elif dk == 'recast':
+            sh = tuple(op[4])
+            fr, fm = (lambda: matrix(X, sh, op[5])), (lambda: MDL.recast(M, sh, op[5]))
+        elif dk == 'trans':
+            fr, fm = (lambda: X.trans()), (lambda: MDL.trans(M))
+        elif dk == 'ctrans':
+            fr, fm = (lambda: X.ctrans()), (lambda: MDL.trans(M, True))
         elif dk == 'rem':
             Y, N = operand(w, op[4])
             fr, fm = (lambda: X % Y), (lambda: MDL.rem(M, N))
@@ -561,6 +637,7 @@ def apply(op, w, stats):
         rr, mr, refused = attempt('derive.' + dk, fr, fm, tc=M.tc)
         if refused:
             bump('refused')
+            bump('refused.' + dk)
             return
         if isinstance(mr, MDL.MM):
             if not isinstance(rr, matrix):
